@@ -340,7 +340,7 @@ def source_tie(ctx):
 
 def kernel_diff(ctx, pairs, quick):
     r = ctx.rng
-    n_counts, n_enough, n_pl = (60000, 60000, 120) if quick else (450000, 450000, 500)
+    n_counts, n_enough, n_pl = (100000, 100000, 150) if quick else (450000, 450000, 1700)
     lines, exp = [], []
     for _ in range(n_counts):
         c = gen_count_tuple(r)
@@ -417,7 +417,7 @@ def run(ctx):
     source_tie(ctx)
 
     n_games = 300 if quick else 5000
-    games, tot = make_games(ctx, harness, driver, n_games, 4 if quick else 6)
+    games, tot = make_games(ctx, harness, driver, n_games, 6)
     ctx.log(f"{len(games)} games generated and re-played by the Lean specification")
 
     # ---- (c) distribution --------------------------------------------------------------------------------------
@@ -441,7 +441,9 @@ def run(ctx):
 
     # ---- (a) kernels ---------------------------------------------------------------------------------------------
     r = ctx.rng
-    cand = [(g.fens[k], g.fens[len(g.moves)]) for g in games for k in g.fens if k < len(g.moves)]
+    # pairs for the ply-combination kernel: no en-passant right in the prefix (with one, distLowerBound is a minimum over
+    # the e.p. captures and the hook fires more than once)
+    cand = [(g.fens[k], g.fens[len(g.moves)]) for g in games for k in g.fens if k < len(g.moves) and g.fens[k].split()[3] == "-"]
     pairs, seen = [], set()
     for fa, fb in r.sample(cand, min(len(cand), 400)):
         key = (fa.split()[1], fb.split()[1])
@@ -526,12 +528,12 @@ def run(ctx):
     ctx.log(f"filter -f: {len(fens)} positions {st_hist}")
 
     # ---- (b3) iterated mode (path + proof game construction) on a subset ----------------------------------------------
-    n_it = 48 if quick else 1200
+    n_it = 96 if quick else 1500
     # prefer short games: their proof games are found within the budget, which is what feeds the certificate checker
     order = sorted(fens, key=lambda f: (pos_of[f][1] > 40, r.random()))
     sub = order[:n_it * 2 // 3] + r.sample(order[n_it * 2 // 3:], min(len(order) - n_it * 2 // 3, n_it - n_it * 2 // 3)) if len(order) > n_it else order
     t0 = time.time()
-    ans_it, nfin, nch = texelutil_iterated(tu, sub, JOBS, 45 if quick else 400)
+    ans_it, nfin, nch = texelutil_iterated(tu, sub, JOBS, 60 if quick else 400)
     it_hist = {"legal": 0, "unknown": 0, "illegal": 0, "no-answer": 0, "fail": 0, "no-solution-info": 0}
     for fen in sub:
         ls = ans_it[fen]
